@@ -149,52 +149,52 @@ Definition wbuf_eqb (x y : wbuf) : bool :=
 Definition ring_item_eqb (x y : nat * ctype) : bool :=
   (fst x =? fst y) && ctype_beq (snd x) (snd y).
 
-Local Open Scope string_scope.
 (* names of the fields in which two states differ *)
+Definition fld (same : bool) (name : string) : list string := if same then [] else [name].
+Arguments fld _ _%string.
 Definition diff_cfsm (x y : cfsm) : list string :=
-  (if k_index x =? k_index y then [] else ["k_index"]) ++
-  (if k_partial x =? k_partial y then [] else ["k_partial"]) ++
-  (if k_length x =? k_length y then [] else ["k_length"]) ++
-  (if k_position x =? k_position y then [] else ["k_position"]) ++
-  (if k_write_size x =? k_write_size y then [] else ["k_write_size"]) ++
-  (if opt_eqb Nat.eqb (k_cmd x) (k_cmd y) then [] else ["k_cmd"]) ++
-  (if k_var x =? k_var y then [] else ["k_var"]) ++
-  (if ctype_beq (k_type x) (k_type y) then [] else ["k_type"]) ++
-  (if N.eqb (k_char x) (k_char y) then [] else ["k_char"]) ++
-  (if cstate_beq (k_state x) (k_state y) then [] else ["k_state"]) ++
-  (if Bool.eqb (k_cr x) (k_cr y) then [] else ["k_cr"]) ++
-  (if Bool.eqb (k_hold x) (k_hold y) then [] else ["k_hold"]) ++
-  (if Z.eqb (k_hold_exit x) (k_hold_exit y) then [] else ["k_hold_exit"]) ++
-  (if wbuf_eqb (k_wbuf x) (k_wbuf y) then [] else ["k_wbuf"]) ++
-  (if wstate_beq (k_wstate x) (k_wstate y) then [] else ["k_wstate"]) ++
-  (if cstate_beq (k_wafter x) (k_wafter y) then [] else ["k_wafter"]) ++
-  (if Bool.eqb (k_implicit x) (k_implicit y) then [] else ["k_implicit"]).
+  fld (k_index x =? k_index y) "k_index" ++
+  fld (k_partial x =? k_partial y) "k_partial" ++
+  fld (k_length x =? k_length y) "k_length" ++
+  fld (k_position x =? k_position y) "k_position" ++
+  fld (k_write_size x =? k_write_size y) "k_write_size" ++
+  fld (opt_eqb Nat.eqb (k_cmd x) (k_cmd y)) "k_cmd" ++
+  fld (k_var x =? k_var y) "k_var" ++
+  fld (ctype_beq (k_type x) (k_type y)) "k_type" ++
+  fld (N.eqb (k_char x) (k_char y)) "k_char" ++
+  fld (cstate_beq (k_state x) (k_state y)) "k_state" ++
+  fld (Bool.eqb (k_cr x) (k_cr y)) "k_cr" ++
+  fld (Bool.eqb (k_hold x) (k_hold y)) "k_hold" ++
+  fld (Z.eqb (k_hold_exit x) (k_hold_exit y)) "k_hold_exit" ++
+  fld (wbuf_eqb (k_wbuf x) (k_wbuf y)) "k_wbuf" ++
+  fld (wstate_beq (k_wstate x) (k_wstate y)) "k_wstate" ++
+  fld (cstate_beq (k_wafter x) (k_wafter y)) "k_wafter" ++
+  fld (Bool.eqb (k_implicit x) (k_implicit y)) "k_implicit".
 Definition diff_ufsm (x y : ufsm) : list string :=
-  (if ustate_beq (u_state x) (u_state y) then [] else ["u_state"]) ++
-  (if u_index x =? u_index y then [] else ["u_index"]) ++
-  (if u_position x =? u_position y then [] else ["u_position"]) ++
-  (if opt_eqb Nat.eqb (u_cmd x) (u_cmd y) then [] else ["u_cmd"]) ++
-  (if u_var x =? u_var y then [] else ["u_var"]) ++
-  (if ctype_beq (u_type x) (u_type y) then [] else ["u_type"]) ++
-  (if wbuf_eqb (u_wbuf x) (u_wbuf y) then [] else ["u_wbuf"]) ++
-  (if wstate_beq (u_wstate x) (u_wstate y) then [] else ["u_wstate"]) ++
-  (if ustate_beq (u_wafter x) (u_wafter y) then [] else ["u_wafter"]) ++
-  (if list_eqb ring_item_eqb (u_ring x) (u_ring y) then [] else ["u_ring"]) ++
-  (if u_tail x =? u_tail y then [] else ["u_tail"]) ++
-  (if u_head x =? u_head y then [] else ["u_head"]) ++
-  (if u_count x =? u_count y then [] else ["u_count"]).
+  fld (ustate_beq (u_state x) (u_state y)) "u_state" ++
+  fld (u_index x =? u_index y) "u_index" ++
+  fld (u_position x =? u_position y) "u_position" ++
+  fld (opt_eqb Nat.eqb (u_cmd x) (u_cmd y)) "u_cmd" ++
+  fld (u_var x =? u_var y) "u_var" ++
+  fld (ctype_beq (u_type x) (u_type y)) "u_type" ++
+  fld (wbuf_eqb (u_wbuf x) (u_wbuf y)) "u_wbuf" ++
+  fld (wstate_beq (u_wstate x) (u_wstate y)) "u_wstate" ++
+  fld (ustate_beq (u_wafter x) (u_wafter y)) "u_wafter" ++
+  fld (list_eqb ring_item_eqb (u_ring x) (u_ring y)) "u_ring" ++
+  fld (u_tail x =? u_tail y) "u_tail" ++
+  fld (u_head x =? u_head y) "u_head" ++
+  fld (u_count x =? u_count y) "u_count".
 Definition diff_state (x y : state) : list string :=
   diff_cfsm (k x) (k y) ++ diff_ufsm (u x) (u y) ++
-  (if list_eqb N.eqb (cbuf x) (cbuf y) then [] else ["cbuf"]) ++
-  (if list_eqb N.eqb (ubuf x) (ubuf y) then [] else ["ubuf"]) ++
-  (if list_eqb (list_eqb N.eqb) (mem x) (mem y) then [] else ["mem"]) ++
-  (if list_eqb Bool.eqb (dis_cmd x) (dis_cmd y) then [] else ["dis_cmd"]) ++
-  (if list_eqb Bool.eqb (dis_grp x) (dis_grp y) then [] else ["dis_grp"]) ++
-  (if Bool.eqb (fault x) (fault y) then [] else ["fault"]) ++
-  (if gL x =? gL y then [] else ["gL"]) ++
-  (if gS x =? gS y then [] else ["gS"]) ++
-  (if gR x =? gR y then [] else ["gR"]).
-Local Close Scope string_scope.
+  fld (list_eqb N.eqb (cbuf x) (cbuf y)) "cbuf" ++
+  fld (list_eqb N.eqb (ubuf x) (ubuf y)) "ubuf" ++
+  fld (list_eqb (list_eqb N.eqb) (mem x) (mem y)) "mem" ++
+  fld (list_eqb Bool.eqb (dis_cmd x) (dis_cmd y)) "dis_cmd" ++
+  fld (list_eqb Bool.eqb (dis_grp x) (dis_grp y)) "dis_grp" ++
+  fld (Bool.eqb (fault x) (fault y)) "fault" ++
+  fld (gL x =? gL y) "gL" ++
+  fld (gS x =? gS y) "gS" ++
+  fld (gR x =? gR y) "gR".
 
 Definition state_eqb (x y : state) : bool :=
   match diff_state x y with [] => true | _ => false end.
